@@ -107,7 +107,11 @@ func run(c *core.Ctx) int {
 	code := c.Finish(d.evals, int64(c.DistinctN("nontrivial_histories")),
 		"PRNG histories (8-40 steps) over 2-4 guest modules (+host module, optional 2nd runtime sharing a CompilationCache) on interpreter/compiler alternately; each history run in 4 child processes (twin, clobberfree=1, default GC, efence=1 for <=14 steps); evaluation = one history decided; non-trivial = performed >=1 real close, >=1 forced GC and >=1 later observation on an instance, distinct by op-kind sequence; plus a -race sample of concurrent closers against a live importing instance (conc_* counters)")
 	if code == 0 { // only logs of child deaths attributed to known findings are left: no witness refers to them
-		os.RemoveAll(filepath.Join(c.Out, "children"))
+		// (only this run's files: another run of the check may be using the same directory)
+		mine, _ := filepath.Glob(filepath.Join(c.Out, "children", fmt.Sprintf("*-%d-*", os.Getpid())))
+		for _, f := range mine {
+			os.Remove(f)
+		}
 	}
 	return code
 }
@@ -509,6 +513,20 @@ func (d *decider) decide(cr caseRec, raw json.RawMessage, rs [4]*core.CaseResult
 			for i := range op.Sub {
 				if op.Sub[i].Kind == "call" {
 					subOps = append(subOps, &op.Sub[i])
+				}
+			}
+			// a mutating re-entrant call runs BEFORE the enclosing call reads the state it changes: if its outcome
+			// differs from the twin's (e.g. rejected on a closed module), the enclosing result is not comparable either
+			for k := 1; k < len(subOps); k++ {
+				t, x := "", "skip:not-reached"
+				if k < len(tp) {
+					t = tp[k]
+				}
+				if k < len(xp) {
+					x = xp[k]
+				}
+				if subOps[k].Mutates && x != t && (k < len(tp) || k < len(xp)) {
+					markDesync(subOps[k])
 				}
 			}
 			for k, so := range subOps {
